@@ -3,7 +3,7 @@
 # Confirms in the scratch worktree /tmp/mut/<ID>/wt: suite passes with the change; demo fails with it and passes without it.
 ID=$1; M=$2; PKG=$3; DEMO=${4:-demo_test.go}
 export PATH=/root/go/pkg/mod/golang.org/toolchain@v0.0.1-go1.24.2.linux-amd64/bin:$PATH GOTOOLCHAIN=local GOFLAGS=-mod=mod GOPROXY=off GOSUMDB=off
-WT=/tmp/mut/$ID/wt; OUT=/tmp/mut/$ID/out/$M
+R=${MUT_ROOT:-/tmp/mut}; WT=$R/$ID/wt; OUT=$R/$ID/out/$M
 cd $WT || exit 3
 git checkout -q --detach main 2>/dev/null; git checkout -q -- . ; git clean -qfd
 git apply "$OUT/patch.diff" || git apply -3 "$OUT/patch.diff" || { echo "APPLY-FAIL"; exit 3; }
